@@ -338,3 +338,60 @@ where
     }
     rep
 }
+
+// ---------------------------------------------------------------- crash trace ------------------
+// Each worker records the case it is about to run on the real crate. If the process dies (abort after
+// memory corruption, stack overflow, SIGSEGV), a signal handler prints the recorded cases to stderr as
+// `CRASH-CASE <slot> <text>` lines; ./check turns them into the replay of a violation.
+const SLOTS: usize = 64;
+const SLOT_LEN: usize = 8192;
+static mut CASES: [[u8; SLOT_LEN]; SLOTS] = [[0; SLOT_LEN]; SLOTS];
+static mut CASE_LEN: [usize; SLOTS] = [0; SLOTS];
+thread_local! { static MY_SLOT: std::cell::Cell<usize> = std::cell::Cell::new(usize::MAX); }
+static NEXT_SLOT: std::sync::atomic::AtomicUsize = std::sync::atomic::AtomicUsize::new(0);
+
+pub fn set_case(text: &str) {
+    let slot = MY_SLOT.with(|s| {
+        if s.get() == usize::MAX {
+            s.set(NEXT_SLOT.fetch_add(1, std::sync::atomic::Ordering::SeqCst) % SLOTS);
+        }
+        s.get()
+    });
+    let b = text.as_bytes();
+    let n = b.len().min(SLOT_LEN);
+    unsafe {
+        let dst = std::ptr::addr_of_mut!(CASES[slot]) as *mut u8;
+        std::ptr::copy_nonoverlapping(b.as_ptr(), dst, n);
+        *(std::ptr::addr_of_mut!(CASE_LEN[slot])) = n;
+    }
+}
+extern "C" fn on_crash(sig: libc::c_int) {
+    unsafe {
+        for slot in 0..SLOTS {
+            let n = *(std::ptr::addr_of!(CASE_LEN[slot]));
+            if n > 0 {
+                let head = b"CRASH-CASE ";
+                libc::write(2, head.as_ptr() as *const libc::c_void, head.len());
+                let src = std::ptr::addr_of!(CASES[slot]) as *const u8;
+                libc::write(2, src as *const libc::c_void, n);
+                libc::write(2, b"\n".as_ptr() as *const libc::c_void, 1);
+            }
+        }
+        libc::_exit(128 + sig);
+    }
+}
+pub fn install_crash_handler() {
+    unsafe {
+        // an alternate stack so that a stack overflow can still be reported
+        let sz = 1 << 16;
+        let stack = libc::malloc(sz);
+        let ss = libc::stack_t { ss_sp: stack, ss_flags: 0, ss_size: sz };
+        libc::sigaltstack(&ss, std::ptr::null_mut());
+        for sig in [libc::SIGABRT, libc::SIGSEGV, libc::SIGBUS, libc::SIGILL].iter() {
+            let mut sa: libc::sigaction = std::mem::zeroed();
+            sa.sa_sigaction = on_crash as usize;
+            sa.sa_flags = libc::SA_ONSTACK;
+            libc::sigaction(*sig, &sa, std::ptr::null_mut());
+        }
+    }
+}
